@@ -18,6 +18,11 @@ func init() {
 		in := fr.i
 		c := in.ctx
 		var ext *Term
+		if in.ex != nil && in.ex.Cfg.Params["verif.concrete_clock"] != 0 {
+			// the property does not depend on time (only log lines read the clock): fixed instants 1 s apart
+			in.clockN++
+			return structure{uint64(0), int64(1_700_000_000 + unixToInternal + int64(in.clockN)), (*value)(nil)}
+		}
 		if in.lastClock == nil {
 			v := in.freshVar("clock.unix", 64)
 			lo := c.Cmp(OpSLe, c.Const(64, 1_000_000_000), v)
